@@ -10,6 +10,7 @@ import CBV.Lemmas.C15
 import CBV.Lemmas.C15Max
 import CBV.Lemmas.C15Graph
 import CBV.Lemmas.C15Lattice
+import CBV.Lemmas.C15Hex
 import Mathlib.Tactic.Ring
 import Mathlib.Tactic.Linarith
 import Mathlib.Tactic.FieldSimp
@@ -104,11 +105,10 @@ theorem T_C15_fixpoint_iter (g : Grid) (fixed : List Nat) (p : List V3) (k : Nat
 def affineImg (o u v w c : V3) : V3 := o + (V3.smul c.x u + V3.smul c.y v + V3.smul c.z w)
 
 /-
-Full statement for hexahedral assemblies (not proved for all sizes): the nx × ny × nz assembly with the
-lattice coordinates of its points is `LatticeLike`.  Proved: the implication below for *every* grid and
-labelling, the hypothesis for the structured quad map of **every** size (`T_C15_lattice_quads`), and
-instances by kernel evaluation; the harness lets the model decide `latticeLikeB` for every regular grid
-(quad and hex) it generates (request `c15.lattice`).
+The implication below holds for *every* grid and labelling (also unstructured ones whose neighbour stencils happen to be
+centrally symmetric); its hypothesis is proved for the structured quad map of every size (`T_C15_lattice_quads`) and for
+the structured hexahedral assembly of every size (`T_C15_lattice_hexes`); the harness lets the model decide
+`latticeLikeB` for every regular grid it generates (request `c15.lattice`).
 -/
 /-- If the junction coordinates are lattice-like, every position list that is an affine image
     `o + x·u + y·v + z·w` of the coordinates on the junctions of the grid is left unchanged by smoothing,
@@ -178,6 +178,50 @@ theorem T_C15_lattice_topology (nx ny : Nat) (h1 : 1 ≤ nx) (h2 : 1 ≤ ny) :
 example : inner (structQuads 3 2) = [5, 6] ∧
     smooth (structQuads 3 2) [] 1 (latticePts 3 2 ⟨1, 2, 3⟩ ⟨2, 1/2, 0⟩ ⟨-1/3, 1, 1⟩)
       = latticePts 3 2 ⟨1, 2, 3⟩ ⟨2, 1/2, 0⟩ ⟨-1/3, 1, 1⟩ := by decide +kernel
+
+/-! ### hexahedral assemblies of every size -/
+
+/-- the regular lattice of the `nx × ny × nz` assembly: point `q` at `o + x·u + y·v + z·w` -/
+def hexLatticePts (nx ny nz : Nat) (o u v w : V3) : List V3 :=
+  (List.range ((nz + 1) * ((ny + 1) * (nx + 1)))).map (fun q => affineImg o u v w (hexCoord nx ny q))
+
+theorem pget_hexLatticePts (nx ny nz : Nat) (o u v w : V3) (q : Nat) (h : q < (nz + 1) * ((ny + 1) * (nx + 1))) :
+    pget (hexLatticePts nx ny nz o u v w) q = affineImg o u v w (hexCoord nx ny q) := by
+  unfold hexLatticePts pget
+  simp [List.getD_eq_getElem?_getD, List.getElem?_map, List.getElem?_range h]
+
+/-- **Regular boundary ⇒ regular lattice for hexahedral assemblies of every size**: for all `nx, ny, nz ≥ 1`, every
+    fixed set, every origin and edge vectors `o, u, v, w` (any affine image of the integer lattice) and every number
+    of iterations, the regular lattice of the structured assembly is left exactly unchanged by smoothing. -/
+theorem T_C15_lattice_hexes (nx ny nz : Nat) (h1 : 1 ≤ nx) (h2 : 1 ≤ ny) (h3 : 1 ≤ nz) (fixed : List Nat)
+    (o u v w : V3) (k : Nat) :
+    smooth (structHexes nx ny nz) fixed k (hexLatticePts nx ny nz o u v w) = hexLatticePts nx ny nz o u v w :=
+  T_C15_lattice_partial (structHexes nx ny nz) fixed (hexCoord nx ny) o u v w _
+    (structHexes_latticeLike nx ny nz h1 h2 h3 fixed) (fun q hq => pget_hexLatticePts nx ny nz o u v w q hq) k
+
+/-- the topology behind it, all sizes: every lattice point with a coordinate on the rim (the outer surface of the box)
+    is a boundary junction, inner junctions are lattice-interior vertices, and a lattice-interior vertex has exactly
+    its six lattice neighbours -/
+theorem T_C15_lattice_hex_topology (nx ny nz : Nat) (h1 : 1 ≤ nx) (h2 : 1 ≤ ny) (h3 : 1 ≤ nz) :
+    (∀ x y z, x ≤ nx → y ≤ ny → z ≤ nz → (x = 0 ∨ x = nx ∨ y = 0 ∨ y = ny ∨ z = 0 ∨ z = nz) →
+      isBoundary (structHexes nx ny nz) (z * ((ny + 1) * (nx + 1)) + y * (nx + 1) + x) = true) ∧
+    (∀ q ∈ inner (structHexes nx ny nz), ∃ x y z,
+      q = (z + 1) * ((ny + 1) * (nx + 1)) + (y + 1) * (nx + 1) + (x + 1) ∧ x + 2 ≤ nx ∧ y + 2 ≤ ny ∧ z + 2 ≤ nz) ∧
+    (∀ x y z, x + 2 ≤ nx → y + 2 ≤ ny → z + 2 ≤ nz →
+      junctionNbrs (structHexes nx ny nz) ((z + 1) * ((ny + 1) * (nx + 1)) + (y + 1) * (nx + 1) + (x + 1)) =
+        [z * ((ny + 1) * (nx + 1)) + (y + 1) * (nx + 1) + (x + 1),
+         (z + 1) * ((ny + 1) * (nx + 1)) + y * (nx + 1) + (x + 1),
+         (z + 1) * ((ny + 1) * (nx + 1)) + (y + 1) * (nx + 1) + x,
+         (z + 1) * ((ny + 1) * (nx + 1)) + (y + 1) * (nx + 1) + (x + 2),
+         (z + 1) * ((ny + 1) * (nx + 1)) + (y + 2) * (nx + 1) + (x + 1),
+         (z + 2) * ((ny + 1) * (nx + 1)) + (y + 1) * (nx + 1) + (x + 1)]) :=
+  ⟨fun x y z hx hy hz hb => border_isBoundary_hex nx ny nz x y z h1 h2 h3 hx hy hz hb,
+   fun q hq => inner_interior_hex nx ny nz q h1 h2 h3 hq,
+   fun x y z hx hy hz => interior_nbrs_hex nx ny nz x y z h2 hx hy hz⟩
+
+/-- non-vacuity: the 2×2×2 assembly has one inner junction, the centre (13), with its six face neighbours -/
+example : inner (structHexes 2 2 2) = [13] ∧ junctionNbrs (structHexes 2 2 2) 13 = [4, 10, 12, 14, 16, 22] := by
+  decide +kernel
 
 /-! ### neighbours are the cell edges, never a diagonal -/
 
@@ -513,6 +557,42 @@ example :
     smooth g [] 1 q = q ∧ defined g [] = true ∧ p.length = q.length ∧
       linfDist p q = 1/4 ∧ linfDist (smooth g [] 1 p) q = 0 := by decide +kernel
 
+/-
+Full statement of a convergence *rate* (not proved): on an anchored graph whose free junctions are at most `d` links from
+the frame and have at most `Δ` neighbours, `d` sweeps shrink the max-norm distance to the fixed point by the factor
+`1 − Δ^(−d)`; hence the positions converge geometrically.  Proved part: the first level of that argument — the update of
+a free junction that has a neighbour on the frame (same value in `p` and in the fixed point `q`) leaves it with an
+error of at most `(1 − 1/degree)·M` when all errors are at most `M`.  Missing: the propagation through the levels
+(a junction at level `k+1` has a neighbour at level `k` whose bound `(1 − Δ^(−k))·M` persists under later updates), an
+induction over sweeps inside an induction over the fold of one sweep, with levels defined from `Reach`.
+-/
+/-- first level of the rate: next to the frame one update contracts the error by `1 − 1/degree` (any coordinate or
+    linear functional `c` of the position, any graph, in-place order) -/
+theorem T_C15_rate_partial (g : Grid) (fixed : List Nat) (q p : List V3) (j t : Nat) {c : V3 → Rat} (hc : IsLin c)
+    (hq : smooth g fixed 1 q = q) (hj : j ∈ inner g) (hf : j ∉ fixed) (hl : j < p.length) (hlq : j < q.length)
+    (ht : t ∈ junctionNbrs g j) (ht0 : pget p t = pget q t)
+    (M : Rat) (hM : ∀ i, |c (pget p i) - c (pget q i)| ≤ M) :
+    |c (pget (step (junctionNbrs g) fixed p j) j) - c (pget q j)|
+      ≤ (1 - 1 / ((junctionNbrs g j).length : Rat)) * M := by
+  obtain ⟨hlt, hbd⟩ := (mem_inner g j).mp hj
+  have hqj := (T_C15_fixpoint g fixed q).mp hq j hlt hbd hf hlq
+  rw [abs_le]
+  have hup := step_err_contract hc (junctionNbrs g) fixed q p j t hf hl hqj ht (by rw [ht0]; simp) M
+    (fun i => (abs_le.mp (hM i)).2)
+  have hlo := step_err_contract hc.neg (junctionNbrs g) fixed q p j t hf hl hqj ht (by rw [ht0]; simp) M
+    (fun i => by have := (abs_le.mp (hM i)).1; linarith)
+  constructor <;> linarith
+
+/-- non-vacuity: 3×3 map, regular lattice `q`, all four interior points of `p` displaced by at most 1/4; point 5 has the
+    frame neighbours 1 and 4: after its update its x-error is at most (1 − 1/4)·(1/4) -/
+example :
+    let g := structQuads 3 3
+    let q := latticePts 3 3 ⟨0, 0, 0⟩ ⟨1, 0, 0⟩ ⟨0, 1, 0⟩
+    let p := ((q.set 5 ⟨5/4, 1, 0⟩).set 6 ⟨9/4, 1, 0⟩).set 9 ⟨5/4, 2, 0⟩
+    smooth g [] 1 q = q ∧ 5 ∈ inner g ∧ 1 ∈ junctionNbrs g 5 ∧ pget p 1 = pget q 1 ∧
+      (pget (step (junctionNbrs g) [] p 5) 5).x - (pget q 5).x = 1/8 ∧ (1 - 1 / (4 : Rat)) * (1/4) = 3/16 := by
+  decide +kernel
+
 /-- **Uniqueness of the fixed point (discrete maximum principle)**, every graph: two position lists that are both
     unchanged by a sweep and agree on all boundary and fixed junctions are equal, as soon as every free inner
     junction is linked to a boundary or fixed junction along neighbour links. -/
@@ -604,6 +684,27 @@ example :
     let q := latticePts 2 2 ⟨0, 0, 0⟩ ⟨1, 0, 0⟩ ⟨0, 1, 0⟩
     let p := q.set 4 ⟨5/4, 3/4, 0⟩
     smooth g [] 1 (smooth g [] 1 p) = smooth g [] 1 p ∧ p ≠ q ∧ smooth g [] 1 p = q := by decide +kernel
+
+/-- **The regular lattice is the only fixed point of a hexahedral assembly with a regular outer surface**, every size:
+    a position list that a sweep leaves unchanged and that carries the affine lattice on all boundary and fixed
+    junctions is that lattice; in particular any state reached by smoothing that one more sweep does not change. -/
+theorem T_C15_lattice_hex_unique (nx ny nz : Nat) (h1 : 1 ≤ nx) (h2 : 1 ≤ ny) (h3 : 1 ≤ nz) (fixed : List Nat)
+    (o u v w : V3) (p : List V3) (hp : p.length = (nz + 1) * ((ny + 1) * (nx + 1)))
+    (fp : smooth (structHexes nx ny nz) fixed 1 p = p)
+    (hb : ∀ i, isBoundary (structHexes nx ny nz) i = true ∨ i ∈ fixed →
+      pget p i = pget (hexLatticePts nx ny nz o u v w) i) :
+    p = hexLatticePts nx ny nz o u v w :=
+  T_C15_unique (structHexes nx ny nz) fixed p (hexLatticePts nx ny nz o u v w) hp (by simp [hexLatticePts]; rfl) fp
+    (T_C15_lattice_hexes nx ny nz h1 h2 h3 fixed o u v w 1) hb
+    (fun j _ _ => structHexes_reach nx ny nz h1 h2 h3 fixed j)
+
+/-- non-vacuity: 2×2×2 assembly, skewed lattice in space, centre displaced: one sweep returns it to the lattice, which a
+    further sweep leaves unchanged -/
+example :
+    let g := structHexes 2 2 2
+    let q := hexLatticePts 2 2 2 ⟨1, 2, 3⟩ ⟨2, 1/2, 0⟩ ⟨-1/3, 1, 1⟩ ⟨0, 1/4, 3⟩
+    let p := q.set 13 ⟨5/4, 3/4, 7⟩
+    p ≠ q ∧ smooth g [] 1 p = q ∧ smooth g [] 1 q = q := by decide +kernel
 
 /-! ### tie to the source text: what the model transcribes literally -/
 
